@@ -16,7 +16,7 @@ from harness.common import NCPU, MachineryError, pmap
 
 
 def check(run, replay=None):
-    G.NAME_COLS[0] = [0, 2, 3]                 # identifiers that are not primary-key candidates by name
+    G.NAME_COLS[0] = [0, 2, 3, 4]                 # identifiers that are not primary-key candidates by name (column 4: a leading underscore)
     G.ALLOW_KEYS[0] = {"server_default"}
     G.OPENERS[0] = G.SQL_OPENERS
     run.rule = ("case = (variant, docstring style, force_pk_id) x interface of 1..2 SQL-representable columns (11 type shapes x "
@@ -117,7 +117,7 @@ def _hybrid_one(args):
 
 
 def _hybrid_batch(items):
-    G.NAME_COLS[0] = [0, 2, 3]
+    G.NAME_COLS[0] = [0, 2, 3, 4]
     G.OPENERS[0] = G.SQL_OPENERS
     G.ALLOW_KEYS[0] = {"server_default"}
     G.OPENERS[0] = G.SQL_OPENERS
@@ -162,7 +162,7 @@ def _agree_batch(items):
 
 
 def _agree(run, cases):
-    G.NAME_COLS[0] = [0, 2, 3]
+    G.NAME_COLS[0] = [0, 2, 3, 4]
     G.OPENERS[0] = G.SQL_OPENERS
     items = [(c, run.seed) for c in cases]
     outs = []
